@@ -306,6 +306,18 @@ def run_response_model(ctx):
                 ctx.violation({"parser": "response", "kind": "strict-reading", "stream": st.hex(), "lim": list(H.DEFAULT_LIM),
                                "segs": [x.hex() for x in segs1], "expected": expected}, "response parser, strict reading: " + why)
                 break
+    # ... and malformed responses are rejected under every segmentation
+    for st, what in R.MUST_REJECT:
+        seglist = [[st], [st[i:i + 1] for i in range(len(st))]] + [[st[:c], st[c:]] for c in sorted({rng.randint(1, len(st) - 1) for _ in range(3)})]
+        for segs1 in seglist:
+            im = R.impl_run(segs1, H.DEFAULT_LIM, True, True, True)
+            nsr += 1
+            ctx.case((st, tuple(len(x) for x in segs1), "must-reject"), nontrivial=True)
+            if not (im["outcome"].startswith("ERR") or any(x["exc"] for x in im["msgs"])):
+                ctx.violation({"parser": "response", "kind": "must-reject", "stream": st.hex(), "lim": list(H.DEFAULT_LIM),
+                               "segs": [x.hex() for x in segs1], "what": what},
+                              f"response parser, strict reading: {what} is accepted ({im['outcome']}, {len(im['msgs'])} message(s))")
+                break
     ctx.count("suite:response-strict-reading", nsr)
     ctx.notes.append(f"response-parser-model part: {_t.process_time() - cpu0:.1f}s CPU in this process")
 
@@ -314,6 +326,10 @@ def replay(ctx, case):
     s = bytes.fromhex(case["stream"])
     lim = tuple(case["lim"])
     segs = [bytes.fromhex(x) for x in case["segs"]]
+    if case.get("kind") == "must-reject":
+        im = R.impl_run(segs, lim, True, True, True)
+        return {"impl": im["outcome"], "messages": len(im["msgs"]),
+                "violates": not (im["outcome"].startswith("ERR") or any(x["exc"] for x in im["msgs"]))}
     if case.get("kind") == "strict-reading":
         im = R.impl_run(segs, lim, True, True, True)
         why = R.strict_reading_violation(case["expected"], im)
